@@ -4,8 +4,13 @@ TrainCtl.tla: the code-shaped countdown arithmetic is checked by TLC against a d
 written from the property text, for every parameter setting x every metric history (exhaustive), with
 a Restart action anywhere.  spec -> code: every exported behaviour is replayed on a real
 TrainingStateController on real files (several restart patterns each): returned decision, learning
-rate in history and optimizer, best/last epoch, user entries and their types are compared with the
-spec after every update; the history recorded with restarts is compared with the uninterrupted one."""
+rate in history and optimizer, best/last epoch, user entries (types and values; the str entry takes the
+specification's awkward strings) are compared with the spec after every update; the history recorded
+with restarts is compared with the uninterrupted one.
+
+TrainCtlRb.tla: roll-back.  A run is resumed from an earlier epoch (same or rebuilt controller) and the
+following epochs are reported again through the documented `epoch` argument; the declarative tracker is
+recomputed over the chain of epochs leading to the reported one; TLC checks the same rules; replay."""
 import itertools
 import os
 import shutil
@@ -19,6 +24,9 @@ from . import _tc
 PROP = "C15"
 MOD = os.path.join(SPECS, "TrainCtlMC.tla")
 ACTIONS = ["Init", "UpdateForEpoch", "Restart"]
+MOD_RB = os.path.join(SPECS, "TrainCtlRb.tla")
+ACTIONS_RB = ["RbInit", "Report", "Rollback"]
+ENT = "note"  # entry set of _tc.Sim: the spec's str entry first, then int / float / str
 
 
 def _close(a, b):
@@ -31,18 +39,23 @@ def replay_one(job):
     out = []
     d = tempfile.mkdtemp(dir=base)
     case = dict(p=rec["p"], rows=rec["rows"], conts=rec["conts"], best=rec["best"], besttrn=rec.get("besttrn"),
-                restarts=sorted(rs), keep_lb=keep_lb)
+                ustr=rec["ustr"], restarts=sorted(rs), keep_lb=keep_lb)
+    rows = [dict(r, ustr=u) for r, u in zip(rec["rows"], rec["ustr"])]
 
     def bad(site, kind, detail):
         out.append((dict(site=site, kind=kind), detail, case))
 
     try:
-        sim = _tc.Sim(d, rec["p"], keep_lb=keep_lb)
-        nrows = len(rec["rows"])
-        for i, row in enumerate(rec["rows"]):
+        sim = _tc.Sim(d, rec["p"], keep_lb=keep_lb, entries=ENT)
+        nrows = len(rows)
+        for i, row in enumerate(rows):
             e = row["epoch"]
             if (e - 1) in rs:
-                sim.start()  # discard everything, rebuild from files
+                try:
+                    sim.start()  # discard everything, rebuild from files
+                except Exception as ex:
+                    bad("restart", "exception", "constructing a controller on the files after epoch %d raised %r" % (e - 1, ex))
+                    return out
                 if e > 1:
                     lrs = sim.opt_lrs()
                     want = _tc.FACTOR ** rec["rows"][i - 1]["lrk"]
@@ -61,13 +74,13 @@ def replay_one(job):
             if info is None:
                 bad("get_info", "missing", "no info for epoch %d" % e)
                 return out
-            want = _tc.row_as_csv(row)
+            want = _tc.row_as_csv(row, ENT)
             if not _close(info["lr"], want["lr"]):
                 bad("update_for_epoch", "lr_reduction", "epoch %d recorded lr %r, rule says %r" % (e, info["lr"], want["lr"]))
             lrs = sim.opt_lrs()
             if not all(_close(x, want["lr"]) for x in lrs):
                 bad("update_for_epoch", "optimizer_lr", "epoch %d optimizer lr %r, expected %r" % (e, lrs, want["lr"]))
-            for name, typ, _ in _tc.Sim.ENTRIES:
+            for name, typ, _ in _tc.Sim.ENTRIES_NOTE:
                 if name not in info or type(info[name]) is not typ or info[name] != want[name]:
                     bad("get_info", "user_entry", "epoch %d entry %s = %r (%s), expected %r (%s)" % (
                         e, name, info.get(name), type(info.get(name)).__name__, want[name], typ.__name__))
@@ -90,16 +103,16 @@ def replay_one(job):
         # recorded history (after a final restart, read back with types)
         lines = sim.read_csv()
         try:
-            got = [_tc.parse_csv_line(x) for x in lines]
+            got = [_tc.parse_csv_line(x, ENT) for x in lines]
         except Exception as ex:
             bad("state_csv", "unparsable", "history file cannot be parsed: %r" % ex)
             return out
-        wantrows = [_tc.row_as_csv(r) for r in rec["rows"]]
+        wantrows = [_tc.row_as_csv(r, ENT) for r in rows]
         if len(got) != nrows:
             bad("state_csv", "length", "history has %d rows, expected %d" % (len(got), nrows))
         else:
             for g, w in zip(got, wantrows):
-                for k in ("epoch", "lr", "train_met", "val_met", "user", "uf", "us"):
+                for k in ("epoch", "lr", "train_met", "val_met", "note", "user", "uf", "us"):
                     if (isinstance(w[k], float) and not _close(g[k], w[k])) or (not isinstance(w[k], float) and g[k] != w[k]):
                         bad("state_csv", "field_" + k, "epoch %d: recorded %s=%r expected %r" % (w["epoch"], k, g[k], w[k]))
                         break
@@ -108,17 +121,123 @@ def replay_one(job):
             text = f.read()
         out.append(("csv", text, None))
         # reload through a fresh controller: entries come back with their declared types
-        ctl = sim.start()
-        for row in rec["rows"]:
+        try:
+            ctl = sim.start()
+        except Exception as ex:
+            bad("restart", "exception", "constructing a controller on the final files raised %r" % ex)
+            return out
+        for row in rows:
             info = ctl.get_info(row["epoch"], None)
-            w = _tc.row_as_csv(row)
+            w = _tc.row_as_csv(row, ENT)
             if info is None:
                 bad("get_info", "missing_after_reload", "epoch %d" % row["epoch"])
                 continue
-            for name, typ, _ in _tc.Sim.ENTRIES:
+            for name, typ, _ in _tc.Sim.ENTRIES_NOTE:
                 if type(info.get(name)) is not typ or info[name] != w[name]:
                     bad("get_info", "user_entry_reloaded", "epoch %d entry %s = %r expected %r (%s)" % (
                         row["epoch"], name, info.get(name), w[name], typ.__name__))
+        return out
+    finally:
+        shutil.rmtree(d, ignore_errors=True)
+
+
+RB_VARIANTS = ("same", "rebuilt", "rebuilt_each")
+
+
+def replay_rb(job):
+    """roll-back behaviour of TrainCtlRb: job = (rec, variant, base_dir) -> list of (sig, detail, case).
+    variant: "same" = one controller throughout (epochs of the first run inferred); "rebuilt" = a new controller
+    from the files at the roll-back; "rebuilt_each" = also after every re-reported epoch.  All checkpoints are
+    kept (the states of the epoch rolled back to must exist)."""
+    rec, variant, base = job
+    out = []
+    d = tempfile.mkdtemp(dir=base)
+    case = dict(p=rec["p"], log=rec["log"], conts=rec["conts"], ustr=rec["ustr"], variant=variant, rollback=True)
+    log = [dict(r, ustr=u) for r, u in zip(rec["log"], rec["ustr"])]
+
+    def bad(site, kind, detail):
+        out.append((dict(site=site, kind=kind, rollback=True), detail, case))
+
+    def rebuild(where):
+        try:
+            sim.start()
+            return True
+        except Exception as ex:
+            bad("restart", "exception", "constructing a controller on the files %s raised %r" % (where, ex))
+            return False
+
+    try:
+        sim = _tc.Sim(d, rec["p"], keep_lb=False, entries=ENT)
+        cur, eff, cont_of, rolled = 0, {}, {}, False
+        for i, row in enumerate(log):
+            e = row["epoch"]
+            if e != cur + 1:
+                # ---- Rollback(j): resume from the states of epoch j
+                j = e - 1
+                rolled = True
+                if variant != "same" and not rebuild("at the roll-back to epoch %d" % j):
+                    return out
+                try:
+                    sim.load_epoch(j)
+                except Exception as ex:
+                    bad("load_model_and_optimizer_for_epoch", "exception", "loading epoch %d to roll back raised %r" % (j, ex))
+                    return out
+                want = _tc.FACTOR ** (eff[j]["lrk"] if j else 0)
+                if not all(_close(x, want) for x in sim.opt_lrs()):
+                    bad("rollback", "optimizer_lr", "optimizer loaded for epoch %d has lr %r, recorded %r" % (j, sim.opt_lrs(), want))
+                if j and bool(sim.ctl.continue_training(j)) != cont_of[j]:
+                    bad("continue_training", "stop_decision", "continue_training(%d)=%r after the roll-back, rule says %r" % (
+                        j, sim.ctl.continue_training(j), cont_of[j]))
+            elif rolled and variant == "rebuilt_each":
+                if not rebuild("after re-reported epoch %d" % cur):
+                    return out
+                sim.load_epoch(cur)
+            try:
+                cont = sim.update(row, epoch=e if (rolled or variant != "same") else None)
+            except Exception as ex:
+                bad("update_for_epoch", "exception", "report %d (epoch %d) raised %r" % (i + 1, e, ex))
+                return out
+            cur = e
+            eff[e], cont_of[e] = row, rec["conts"][i]
+            if bool(cont) != rec["conts"][i]:
+                bad("update_for_epoch", "stop_decision", "report %d: epoch %d returned %r, the rule over the chain of epochs 1..%d says %r" % (
+                    i + 1, e, cont, e, rec["conts"][i]))
+            if bool(sim.ctl.continue_training(e)) != rec["conts"][i]:
+                bad("continue_training", "stop_decision", "report %d: continue_training(%d)=%r, rule says %r" % (
+                    i + 1, e, sim.ctl.continue_training(e), rec["conts"][i]))
+            info = sim.ctl.get_info(e, None)
+            if info is None:
+                bad("get_info", "missing", "no info for epoch %d" % e)
+                return out
+            want = _tc.row_as_csv(row, ENT)
+            if not _close(info["lr"], want["lr"]):
+                bad("update_for_epoch", "lr_reduction", "report %d: epoch %d recorded lr %r, rule says %r" % (i + 1, e, info["lr"], want["lr"]))
+            if not all(_close(x, want["lr"]) for x in sim.opt_lrs()):
+                bad("update_for_epoch", "optimizer_lr", "report %d: epoch %d optimizer lr %r, expected %r" % (i + 1, e, sim.opt_lrs(), want["lr"]))
+            if not _close(info["val_met"], want["val_met"]) or info["epoch"] != e:
+                bad("get_info", "info", "report %d: epoch %d info holds epoch %r val_met %r" % (i + 1, e, info["epoch"], info["val_met"]))
+            for name, typ, _ in _tc.Sim.ENTRIES_NOTE:
+                if name not in info or type(info[name]) is not typ or info[name] != want[name]:
+                    bad("get_info", "user_entry", "report %d: epoch %d entry %s = %r, expected %r (%s)" % (
+                        i + 1, e, name, info.get(name), want[name], typ.__name__))
+        with open(sim.csv) as f:
+            out.append(("csv", f.read(), None))
+        # a reader of the file sees, per epoch, the row written last
+        if not rebuild("at the end"):
+            return out
+        for e, row in sorted(eff.items()):
+            info = sim.ctl.get_info(e, None)
+            w = _tc.row_as_csv(row, ENT)
+            if info is None:
+                bad("get_info", "missing_after_reload", "epoch %d" % e)
+                continue
+            if not _close(info["lr"], w["lr"]) or not _close(info["val_met"], w["val_met"]):
+                bad("get_info", "info_reloaded", "epoch %d reloaded lr %r val_met %r, expected %r %r" % (
+                    e, info["lr"], info["val_met"], w["lr"], w["val_met"]))
+            for name, typ, _ in _tc.Sim.ENTRIES_NOTE:
+                if type(info.get(name)) is not typ or info[name] != w[name]:
+                    bad("get_info", "user_entry_reloaded", "epoch %d entry %s = %r expected %r (%s)" % (
+                        e, name, info.get(name), w[name], typ.__name__))
         return out
     finally:
         shutil.rmtree(d, ignore_errors=True)
@@ -136,7 +255,9 @@ def restart_patterns(rng, n, exhaustive, quick=False):
 
 
 def run(ctx):
-    ctx.rule = ("TLC: every parameter setting x every metric history (see tlc_runs) with restarts anywhere; replay: every "
+    ctx.rule = ("[roll-back: TrainCtlRb, every run of <= 4 epochs rolled back once to any earlier epoch and carried on; a seeded "
+                "sample of the exported behaviours replayed on one controller and on rebuilt ones] "
+                "TLC: every parameter setting x every metric history (see tlc_runs) with restarts anywhere; replay: every "
                 "behaviour of the replay config on a real controller under restart patterns {none, seeded subset; thorough adds after-every-epoch"
                 "} (thorough: every subset for histories <= 4); non-trivial = behaviour in which early stopping fired, "
                 "the rate was reduced, or a cool-down/burn-in was active; distinct by (parameters, metric history, restarts)")
@@ -149,14 +270,16 @@ def run(ctx):
 
     got, errs = {}, []
 
-    def job(name, workers):
+    def job(name, workers, mod=MOD, stem="TrainCtl"):
         try:
-            got[name] = tlc.run(MOD, os.path.join(SPECS, "TrainCtl_%s.cfg" % name), workers=workers, timeout=5000)
+            got[name] = tlc.run(mod, os.path.join(SPECS, "%s_%s.cfg" % (stem, name)), workers=workers, timeout=5000)
         except Exception as ex:
             errs.append(ex)
 
-    ths = [threading.Thread(target=job, args=(design[0], 10)), threading.Thread(target=job, args=(design[1], 4)),
-           threading.Thread(target=job, args=("replay_" + tag, 4))]
+    ths = [threading.Thread(target=job, args=(design[0], 7)), threading.Thread(target=job, args=(design[1], 2)),
+           threading.Thread(target=job, args=("replay_" + tag, 2)),
+           threading.Thread(target=job, args=("rb_design_" + tag, 3 if ctx.quick else 8, MOD_RB, "TrainCtlRb")),
+           threading.Thread(target=job, args=("rb_replay_" + tag, 2, MOD_RB, "TrainCtlRb"))]
     for th in ths:
         th.start()
     for th in ths:
@@ -168,6 +291,16 @@ def run(ctx):
         tlc.require_ok(res, "TrainCtl/" + name)
         tlc.require_covered(res, ACTIONS, "TrainCtl/" + name)
         ctx.add_tlc("TrainCtl/" + name, res)
+    res = got["rb_design_" + tag]
+    tlc.require_ok(res, "TrainCtlRb/design")
+    tlc.require_covered(res, ACTIONS_RB, "TrainCtlRb/design")
+    ctx.add_tlc("TrainCtlRb/design_" + tag, res)
+    res = got["rb_replay_" + tag]
+    tlc.require_ok(res, "TrainCtlRb/replay")
+    ctx.add_tlc("TrainCtlRb/replay_" + tag, res, count_states=False)
+    rbrecs = res.records
+    if not rbrecs:
+        raise MachineryError("no roll-back behaviours exported")
     res = got["replay_" + tag]
     tlc.require_ok(res, "TrainCtl/replay")
     ctx.add_tlc("TrainCtl/replay_" + tag, res, count_states=False)
@@ -187,7 +320,36 @@ def run(ctx):
         exh = (not ctx.quick) and n <= 4 and ctx.rng.random() < 0.05  # every subset of restarts for a seeded 5 %
         for rs in restart_patterns(ctx.rng, n, exh, ctx.quick):
             jobs.append((rec, rs, ctx.rng.random() < 0.7, base))
+    # roll-back behaviours: a seeded sample of the exported ones, each on one controller and on rebuilt ones
+    rbrecs.sort(key=lambda r: (sorted(r["p"].items()), [(x["epoch"], x["val"]) for x in r["log"]]))
+    n_rb = min(len(rbrecs), 700 if ctx.quick else 6000)
+    ctx.extra["rollback_behaviours_exported"] = len(rbrecs)
+    ctx.extra["rollback_behaviours_replayed"] = n_rb
+    rbjobs = []
+    for rec in ctx.rng.sample(rbrecs, n_rb):
+        for variant in ("same", ctx.rng.choice(RB_VARIANTS[1:])) if ctx.quick else RB_VARIANTS:
+            rbjobs.append((rec, variant, base))
     results = par.pmap(replay_one, jobs)
+    rbresults = par.pmap(replay_rb, rbjobs)
+    rb_beh = {}
+    for (rec, variant, _), out in zip(rbjobs, rbresults):
+        key = (tuple(sorted(rec["p"].items())), tuple((r["epoch"], r["val"]) for r in rec["log"]))
+        ctx.case(key=(key, variant), nontrivial=any(not c for c in rec["conts"]) or any(r["lrk"] > 0 for r in rec["log"]),
+                 n=len(rec["log"]),
+                 sample=dict(params=rec["p"], reports=[(r["epoch"], r["val"]) for r in rec["log"]], controller=variant,
+                             decisions=rec["conts"]) if ctx.rng.random() < 0.001 else None)
+        ctx.traces += 1
+        for sig, detail, case in out:
+            if sig == "csv":
+                rb_beh.setdefault(key, {})[variant] = detail
+            else:
+                ctx.violation(sig, detail, case)
+    for key, d in rb_beh.items():
+        for variant, text in d.items():
+            if "same" in d and text != d["same"]:
+                ctx.violation(dict(site="restart", kind="history_differs", rollback=True),
+                              "history recorded with a roll-back on %s controller(s) differs from the one recorded on one controller" % variant,
+                              dict(p=dict(key[0]), reports=list(key[1]), variant=variant, uninterrupted=d["same"], restarted=text))
     # group by behaviour to compare histories of restarted runs with the uninterrupted one
     by_beh = {}
     for (rec, rs, keep_lb, _), out in zip(jobs, results):
@@ -219,10 +381,20 @@ def run(ctx):
 
 
 def replay(ctx, case):
-    if "rows" not in case:
+    if "rows" not in case and not case.get("rollback"):
         print("history comparison case; re-run the check to reproduce")
         return
-    rec = dict(p=case["p"], rows=case["rows"], conts=case["conts"], best=case["best"])
+    if case.get("rollback"):
+        if "log" not in case:
+            print("history comparison case; re-run the check to reproduce")
+            return
+        rec = dict(p=case["p"], log=case["log"], conts=case["conts"], ustr=case["ustr"])
+        for sig, detail, c in replay_rb((rec, case["variant"], ctx.workdir)):
+            if isinstance(sig, dict):
+                print("  ", sig, detail)
+                ctx.violation(sig, detail, c)
+        return
+    rec = dict(p=case["p"], rows=case["rows"], conts=case["conts"], best=case["best"], ustr=case["ustr"])
     if case.get("besttrn"):
         rec["besttrn"] = case["besttrn"]
     out = replay_one((rec, frozenset(case["restarts"]), case["keep_lb"], ctx.workdir))
